@@ -14,8 +14,9 @@ package c07
 //                  promoted / mixed promoted+plain constructor / closure / arrow function) × the ways arguments
 //                  are passed (positional, named in order, named permuted, positional+named, trailing default
 //                  omitted / supplied, a defaulted parameter skipped by a named argument, a required argument
-//                  missing, a typed variadic tail); the offender is a mistyped value or an argument expression
-//                  that throws;
+//                  missing, a typed variadic tail, an extra argument that names no parameter, an extra argument
+//                  that names a parameter a positional argument has filled); the offender is a mistyped value, an
+//                  argument expression that throws, or the name;
 //   - fam "store": several typed properties assigned in one statement sequence / one destructuring assignment /
 //                  one method body;
 //   - fam "vis":   several member accesses in one argument list / array literal / operator expression /
@@ -27,11 +28,12 @@ package c07
 // are untouched. Against the model: `bind`, `sseq`, `eargs` (Model.Types.bindArgs / storeSeq, Model.Access.evalArgs).
 
 import (
+	"encoding/json"
 	"fmt"
 	"os"
-	"sort"
 	"strconv"
 	"strings"
+	"sync"
 
 	"verif/harness/vh"
 )
@@ -62,7 +64,7 @@ const (
 // ------------------------------------------------------------ fam "ty": callables with several typed parameters
 
 var posCallables = []string{"fnParam", "methParam", "staticParam", "ctorParam", "promotedParam", "mixedCtor", "closureParam", "closureParam/arrow"}
-var posVariants = []string{"pos", "named", "namedperm", "mixnamed", "dflt", "dfltgiven", "namedskip", "few", "variadic"}
+var posVariants = []string{"pos", "named", "namedperm", "mixnamed", "dflt", "dfltgiven", "namedskip", "few", "variadic", "unknown", "overwrite"}
 
 // a parameter that carries a default needs a type with a literal default: class types become nullable
 var posDefault = map[int][2]string{ // type index → {literal, tag of what arrives}
@@ -148,12 +150,27 @@ func posCallOrder(variant string, args []int) []int {
 
 func posNamed(variant string, q int) bool {
 	switch variant {
-	case "named", "namedperm":
+	case "named", "namedperm", "unknown":
 		return true
-	case "mixnamed", "namedskip":
+	case "mixnamed", "namedskip", "overwrite":
 		return q >= 1
 	}
 	return false
+}
+
+// the variants whose call carries one argument more, with a name that cannot be resolved: `zz: 0` (no such
+// parameter) or `a0: <a fitting value>` after the positional argument for $a0. Where it stands among the named
+// arguments depends on the declared types (any place after the positional ones).
+func posBadName(variant string) bool { return variant == "unknown" || variant == "overwrite" }
+
+func posBadNameAt(variant string, tys []int, written int) int {
+	if variant == "unknown" {
+		return tys[0] % (written + 1)
+	}
+	if written <= 1 {
+		return written
+	}
+	return 1 + tys[0]%written
 }
 
 // source of the value passed at slot q: mistyped ints / strings / floats carry the position, so that the
@@ -270,6 +287,15 @@ func posCallExpr(tag string, g posGroup, args []int) string {
 			e = fmt.Sprintf("a%d: %s", q, e)
 		}
 		as = append(as, e)
+	}
+	if posBadName(g.variant) {
+		extra := "zz: 0"
+		if g.variant == "overwrite" {
+			in := posInsideOf(g.tys[0])
+			extra = "a0: " + posValSrc(tag, in[0], 0, false)
+		}
+		at := posBadNameAt(g.variant, g.tys, len(as))
+		as = append(as[:at], append([]string{extra}, as[at:]...)...)
 	}
 	al := strings.Join(as, ", ")
 	switch g.boundary {
@@ -413,7 +439,9 @@ func posTyVectors(c *vh.Ctx, n, count int, defaults func(i int) bool) [][]int {
 	return out
 }
 
-func posInside(c *vh.Ctx, t int) []int {
+func posInside(c *vh.Ctx, t int) []int { return posInsideOf(t) }
+
+func posInsideOf(t int) []int {
 	var in []int
 	for j, v := range valDecls() {
 		if tyDecls()[t].Denotes(v.Name) {
@@ -529,6 +557,10 @@ func posOffenders(x PosCase) []posOffender {
 	tys, vals := tyDecls(), valDecls()
 	n := len(x.Tys)
 	var out []posOffender
+	if posBadName(x.Variant) {
+		// the names are resolved before anything is evaluated or bound
+		out = append(out, posOffender{-1, "badname"})
+	}
 	for q, a := range x.Args {
 		switch {
 		case a == argThrows:
@@ -581,41 +613,86 @@ func posExpectArrival(x PosCase) string {
 
 func tyTokens(t int) string { return strings.ReplaceAll(tyDecls()[t].Model, "\t", " ") }
 
-// model request for one call: slots in call order, each `<label>,<boundary>,<val|!>,<ty tokens>`
+// model request for one call. Variadic callables: the slots in parameter order, each
+// `<label>,<boundary>,<val|!|?>,<ty tokens>` (`bind`). All others: the parameters (name, boundary, default, type) and
+// the arguments in the order and form in which they are WRITTEN at the call (`nbind`): the model resolves named
+// arguments to parameters itself (Model.ArgNames.resolve mirrors resolveNamedArguments), takes defaults for
+// parameters that nothing reaches and refuses a missing required one.
 func posBindLine(x PosCase) string {
 	vals := valDecls()
 	n := len(x.Tys)
+	mode, loop := "il", "funcValue"
+	switch x.Boundary {
+	case "fnParam":
+		loop = "fn"
+	case "ctorParam", "promotedParam", "mixedCtor":
+		loop = "ctor"
+	case "methParam":
+		mode, loop = "ef", "method" // callMethodParams evaluates every argument, then binds by parameter index
+	}
+	if x.Variant != "variadic" {
+		// the call as WRITTEN: the model resolves the names itself (Model.ArgNames.callNamed)
+		dk := map[string]string{"int": "int", "str": "str", "array": "arr", "null": "null"}
+		var ps, as []string
+		for i, t := range x.Tys {
+			d := "-"
+			if posHasDefault(x.Variant, i, n) {
+				d = dk[posDefault[t][1]]
+			}
+			ps = append(ps, fmt.Sprintf("%d,%s,%s,%s", i, posSlotBoundary(x.Boundary, i), d, tyTokens(t)))
+		}
+		for _, q := range posCallOrder(x.Variant, x.Args) {
+			v := "!"
+			if x.Args[q] >= 0 {
+				v = vals[x.Args[q]].Model
+			}
+			if posNamed(x.Variant, q) {
+				as = append(as, fmt.Sprintf("n%d,%s", q, v))
+			} else {
+				as = append(as, "p,"+v)
+			}
+		}
+		if posBadName(x.Variant) {
+			extra := "n99,int"
+			if x.Variant == "overwrite" {
+				extra = "n0," + vals[posInsideOf(x.Tys[0])[0]].Model
+			}
+			at := posBadNameAt(x.Variant, x.Tys, len(as))
+			as = append(as[:at], append([]string{extra}, as[at:]...)...)
+		}
+		al := strings.Join(as, ";")
+		if al == "" {
+			al = "-"
+		}
+		return "nbind\t" + typeH + "\t" + mode + "\t" + loop + "\t" + strings.Join(ps, ";") + "\t" + al
+	}
 	var slots []string
-	// named arguments are resolved to parameter order before anything is evaluated (resolveNamedArguments), so the
-	// slots are evaluated and bound in parameter order whatever the order at the call
-	given := posCallOrder(x.Variant, x.Args)
-	sort.Ints(given)
-	for _, q := range given {
+	for q, a := range x.Args {
 		p := posParamOf(q, n)
 		b := posSlotBoundary(x.Boundary, p)
 		if x.Variant == "variadic" && p == n-1 {
 			b = "variadicParam"
 		}
-		v := "!"
-		if x.Args[q] >= 0 {
-			v = vals[x.Args[q]].Model
+		v := ""
+		switch a {
+		case argThrows:
+			v = "!"
+		case argMissing:
+			v = "?"
+		case argDefault:
+			v = map[string]string{"int": "int", "str": "str", "array": "arr", "null": "null"}[posDefault[x.Tys[p]][1]]
+		default:
+			v = vals[a].Model
 		}
 		slots = append(slots, fmt.Sprintf("%d,%s,%s,%s", q, b, v, tyTokens(x.Tys[p])))
 	}
-	mode := "il"
-	if x.Boundary == "methParam" {
-		mode = "ef" // callMethodParams evaluates every argument, then binds by parameter index
-	}
-	missing := "-"
-	for q, a := range x.Args {
-		if a == argMissing {
-			missing = strconv.Itoa(q)
-		}
-	}
-	return "bind\t" + typeH + "\t" + mode + "\t" + missing + "\t" + strings.Join(slots, ";")
+	return "bind\t" + typeH + "\t" + mode + "\t" + loop + "\t" + strings.Join(slots, ";")
 }
 
 func posWhere(x PosCase, q int) string {
+	if q < 0 {
+		return "name"
+	}
 	order := posCallOrder(x.Variant, x.Args)
 	if len(order) > 0 && order[len(order)-1] == q {
 		return "last"
@@ -649,6 +726,11 @@ func posDescribe(x PosCase) string {
 			as = append(as, s)
 		}
 	}
+	if x.Variant == "unknown" {
+		as = append(as, "+ zz: 0")
+	} else if x.Variant == "overwrite" {
+		as = append(as, "+ a0: <fits>")
+	}
 	return fmt.Sprintf("%s/%s (%s) <- (%s)", x.Boundary, x.Variant, strings.Join(ps, ", "), strings.Join(as, ", "))
 }
 
@@ -667,6 +749,7 @@ func runPosTypes(c *vh.Ctx, m *vh.Model, tag string, only *PosCase) {
 			}
 			cases = keep
 		}
+		cases = append(posPinned(c, "ty", tag, cases), cases...)
 	}
 	src := posTyScript(tag, cases)
 	posDump("ty", src)
@@ -710,6 +793,10 @@ func runPosTypes(c *vh.Ctx, m *vh.Model, tag string, only *PosCase) {
 			switch {
 			case o.ok:
 				impl = fmt.Sprintf("ok ran=%d", o.ran)
+			case o.ran == 0 && strings.Contains(o.msg, "无法找到变量"):
+				impl = "unresolved:unknown"
+			case o.ran == 0 && strings.Contains(o.msg, "命名实参覆盖了已经传入的实参"):
+				impl = "unresolved:duplicate"
 			case strings.HasPrefix(o.class, "Boom"):
 				impl = fmt.Sprintf("thr:%d ran=%d", rep, o.ran)
 			default:
@@ -717,7 +804,7 @@ func runPosTypes(c *vh.Ctx, m *vh.Model, tag string, only *PosCase) {
 			}
 			want := ans[id]
 			same := impl == want
-			if !same && rep < 0 && o.denied && !strings.HasPrefix(o.class, "Boom") {
+			if !same && rep < 0 && strings.HasPrefix(impl, "rej:") {
 				// the message does not say which argument: compare the kind only
 				if k := strings.IndexByte(want, ' '); k >= 0 && strings.HasPrefix(want, "rej:") {
 					same = want[k:] == fmt.Sprintf(" ran=%d", o.ran)
@@ -730,8 +817,14 @@ func runPosTypes(c *vh.Ctx, m *vh.Model, tag string, only *PosCase) {
 		switch {
 		case o.ok && len(offs) > 0:
 			f := offs[0]
+			why := map[string]string{"mistyped": "does not fit its parameter's declared type", "thrown": "throws while it is evaluated", "missing": "is missing",
+				"badname": "(the extra one) names no parameter / a parameter that has its argument already"}[f.kind]
+			which := fmt.Sprintf("argument %d", f.q)
+			if f.q < 0 {
+				which = "one argument"
+			}
 			viol(c, sigBase+":admitted:"+f.kind+":"+posWhere(x, f.q),
-				fmt.Sprintf("a call was accepted although argument %d is %s: %s; the callee's body ran %d time(s) and saw %s", f.q, f.kind, desc, o.ran, o.val), x)
+				fmt.Sprintf("a call was accepted although %s %s: %s; the callee's body ran %d time(s) and saw %s", which, why, desc, o.ran, o.val), x)
 		case o.denied && len(offs) == 0:
 			viol(c, sigBase+":rejects", fmt.Sprintf("a call whose arguments all fit was refused: %s: %s %s", desc, o.class, firstN(o.msg, 120)), x)
 		}
@@ -793,6 +886,90 @@ func posDump(name, src string) {
 	if d := os.Getenv("C07_DUMP_POS"); d != "" {
 		os.WriteFile(d+"/pos_"+name+".php", []byte(src), 0o644)
 	}
+}
+
+// ------------------------------------------------------------ past failures run first
+//
+// The type vectors of fam "ty" and "store" are seeded, so the input that once showed a defect is not part of every
+// run. Every `pos` replay recorded in props/C07.json (fixed and known entries alike) is therefore put in front of the
+// enumerated cases of its family in every run, under this run's fixture names; a case the enumeration contains anyway
+// (fam "vis" is enumerated completely) is not run twice.
+var (
+	posPinnedOnce sync.Once
+	posPinnedAll  []PosCase
+	posPinnedNote string
+)
+
+func posPinnedLoad() {
+	var b []byte
+	var err error
+	for _, p := range []string{"../props/C07.json", "props/C07.json", "/verif/props/C07.json"} {
+		if b, err = os.ReadFile(p); err == nil {
+			break
+		}
+	}
+	if err != nil {
+		posPinnedNote = "props/C07.json not found: the recorded pos replays were not re-run"
+		return
+	}
+	var props struct {
+		Known []struct {
+			ID     string          `json:"id"`
+			Replay json.RawMessage `json:"replay"`
+		} `json:"known_findings"`
+	}
+	if err := json.Unmarshal(b, &props); err != nil {
+		posPinnedNote = "props/C07.json does not parse: " + err.Error()
+		return
+	}
+	nt, nv := len(tyDecls()), len(valDecls())
+	for _, k := range props.Known {
+		var x PosCase
+		if len(k.Replay) == 0 || json.Unmarshal(k.Replay, &x) != nil || x.Kind != "pos" {
+			continue
+		}
+		ok := true
+		for _, t := range x.Tys {
+			ok = ok && t >= 0 && t < nt
+		}
+		for _, a := range x.Args {
+			ok = ok && a >= argMissing && a < nv
+		}
+		if x.Fam != "vis" && (len(x.Tys) == 0 || len(x.Args) < len(x.Tys)) {
+			ok = false
+		}
+		if !ok {
+			posPinnedNote = "recorded replay of " + k.ID + " does not fit the type / value tables any more"
+			continue
+		}
+		posPinnedAll = append(posPinnedAll, x)
+	}
+}
+
+func posPinned(c *vh.Ctx, fam, tag string, have []PosCase) []PosCase {
+	posPinnedOnce.Do(posPinnedLoad)
+	if posPinnedNote != "" {
+		c.Note("%s", posPinnedNote)
+		posPinnedNote = ""
+	}
+	seen := map[string]bool{}
+	for _, x := range have {
+		seen[x.key()] = true
+	}
+	var out []PosCase
+	for _, x := range posPinnedAll {
+		if x.Fam != fam {
+			continue
+		}
+		x.Tag = tag
+		c.Hit("pos:pinned:" + fam)
+		if seen[x.key()] {
+			continue
+		}
+		seen[x.key()] = true
+		out = append(out, x)
+	}
+	return out
 }
 
 func runPos(c *vh.Ctx, m *vh.Model, tag string, only *PosCase) {
@@ -955,6 +1132,7 @@ func runPosStores(c *vh.Ctx, m *vh.Model, tag string, only *PosCase) {
 		cases = []PosCase{*only}
 	} else {
 		cases = posStoreCases(c, tag)
+		cases = append(posPinned(c, "store", tag, cases), cases...)
 	}
 	src := posStoreScript(tag, cases)
 	posDump("store", src)
@@ -1282,6 +1460,7 @@ func runPosVis(c *vh.Ctx, m *vh.Model, tag string, only *PosCase) {
 		cases = []PosCase{*only}
 	} else {
 		cases = posVisCases(c, tag)
+		cases = append(posPinned(c, "vis", tag, cases), cases...)
 	}
 	src := posVisScript(tag, cases)
 	posDump("vis", src)
